@@ -141,7 +141,7 @@ def write_evidence(ctx: Ctx, meta, known, new, stale, wall):
     cov.update({k: v for k, v in sorted(t.extra.items())})
     cov.update(ctx.info)
     if level == "model_checking":
-        cov["states"] = t.states
+        cov["states"] = t.states + len(t.state_set)
         cov["transitions"] = t.transitions
         # every transition is executed on the implementation itself: each explored
         # execution *is* a trace validated against the implementation
